@@ -193,7 +193,9 @@ func c12r6(r *R) {
 		fn := c.Method("pkg/http2", nm[0], nm[1])
 		r.need(fn != nil, "%s.%s not found", nm[0], nm[1])
 		rows = append(rows, returnRows(c, fn)...)
-		rows = append(rows, callSiteRows(c, withAnon(fn), "(*http2.inflow).take", "(*http2.inflow).add", "http2.takeInflows", "(*http2.outflow).take", "(*http2.outflow).add", "(*http2.Framer).WriteWindowUpdate")...)
+		rows = append(rows, callSiteRows(c, withAnon(fn), "(*http2.inflow).take", "(*http2.inflow).add", "http2.takeInflows", "(*http2.outflow).take", "(*http2.outflow).add", "(*http2.Framer).WriteWindowUpdate",
+			// writers parked on the window are woken when credit arrives: every waiter, on every credit
+			"(*sync.Cond).Broadcast", "(*sync.Cond).Signal", "(*sync.Cond).Wait")...)
 	}
 	r.Ob("C12.R6", "instances").Check(len(rows) >= 30, "expected >= 30 transport flow-control rows, found %d", len(rows))
 	checkTable(r, "C12.R6", "h2_flow_transport", rows, "transport flow-control step")
